@@ -144,6 +144,9 @@ fixed("C09", "8b14f82", "SparseKDE(descriptors, weights) divided the caller's we
 fixed("C09", "6f2ff40", "sample FPS / CUR / VoronoiFPS: fit(X, y) then fit(X) raised TypeError through a stale y_selected_")
 fixed("C09", "fdb06df", "KernelNormalizer().fit(K_14).fit(K_9) raised a feature-count ValueError (reset=False in fit)")
 
+# ------------------------------------------------------------------ C08
+fixed("C08", "d44f50a", "CUR / PCov-CUR warm start on data of scale >~ 1e3 re-orthogonalised by round-off residuals (absolute tolerance): X_current_ off by up to 66 %, warm-started selection differs from the cold one at scale 1e6")
+
 if __name__ == "__main__":
     out = {
         "comment": "Genuine defects of scikit-matter found by the monitors. status=known: recorded, not repaired, keyed by "
